@@ -43,7 +43,7 @@ def main():
             return 1
         if not a.skip_tests:
             r = sh('cmake -G Ninja -S %s -B %s/_build -DCMAKE_BUILD_TYPE=RelWithDebInfo >/dev/null && cmake --build %s/_build 2>&1 | tail -3 && '
-                   'ctest --test-dir %s/_build -j8 --timeout 600 2>&1 | tail -5' % (wt, wt, wt, wt))
+                   'ctest --test-dir %s/_build -j8 --timeout 600 2>&1 | grep -E "tests passed|tests failed|Failed|\\*\\*\\*"' % (wt, wt, wt, wt))
             out['tests_pass'] = '100% tests passed' in r.stdout
             out['tests_tail'] = r.stdout[-300:]
         if a.demo:
